@@ -253,7 +253,7 @@ def check_C19(tier):
         chk.nontrivial.add("component-in-partial-run:" + inst["name"])
     # FileSplitter and Concatenator as process kinds of Flow.tla inside workflows: FlowTrace accepts the recorded runs, the parts of every file
     # concatenate back to it, the concatenated file holds every input once in arrival order
-    inflow = [zoo.ZSPL(n=3, buf=1), zoo.ZSPL(n=4, lines=2), zoo.ZSPL(n=0), zoo.ZCAT(n=4, buf=1), zoo.ZCAT(n=3, two=True)]
+    inflow = [zoo.ZSPL(n=3, buf=1), zoo.ZSPL(n=4, lines=2), zoo.ZSPL(n=0), zoo.ZSPLT(n=2, lines=1), zoo.ZSPLT(n=3, lines=2, buf=1), zoo.ZCAT(n=4, buf=1), zoo.ZCAT(n=3, two=True)]
     def flowrun(inst):
         exp = fc.expected(inst)
         rrs = fc.real_runs(inst, [dict(env={}, bufsize=inst["bufsize"], timeout=25), dict(env={"VERIF_JITTER": "13"}, bufsize=1, timeout=25)])
@@ -276,6 +276,17 @@ def check_C19(tier):
                     back = "".join("".join((rr.snapshot[p].get("text") or "").splitlines(True)[1:-1]) for p in parts)
                     if back != "SRC %s\n" % it:
                         chk.violation("FileSplitter inside a workflow: the parts of in/%s.txt, as read by their consumers %s, concatenate to %r" % (it, parts, back[:80]), replay)
+            if inst["name"] == "ZSPLT":
+                for it in inst["procs"][0]["items"]:
+                    parts = sorted((p for p in rr.snapshot if re.match(r"o/b\.out_a\.out_%s\.txt\.split_\d+\.txt$" % re.escape(it), p)), key=lambda p: int(p[:-4].rsplit("_", 1)[1]))
+                    back = "".join("".join((rr.snapshot[p].get("text") or "").splitlines(True)[1:-1]) for p in parts)
+                    whole = rr.snapshot.get("o/a.out_%s.txt" % it, {}).get("text")
+                    if back != whole:
+                        chk.violation("FileSplitter behind a task: the parts of o/a.out_%s.txt, as read by their consumers %s, concatenate to %r, the file is %r" % (it, parts, back[:80], (whole or "")[:80]), replay)
+                    lim = int(inst["procs"][2]["arg"])
+                    long = [p for p in parts if len((rr.snapshot[p].get("text") or "").splitlines()) - 2 > lim]
+                    if long:
+                        chk.violation("FileSplitter behind a task: parts longer than %d lines: %s" % (lim, long), replay)
             if inst["name"] == "ZCAT":
                 order = [ev["path"] for ev in rr.events if ev["ev"] == "send.begin" and ev["to"] == "cc.in"]
                 wantc = "".join((rr.snapshot.get(p, {}).get("text") or "") + "\n" for p in order)      # the component ends every input with a newline of its own
